@@ -302,6 +302,40 @@ func c15Run(c c15Case) []mc.Finding {
 			bad("related-change-does-not-wake", "%s %s/%s is in the related map but changing it did not queue the parent (queue ops %v)", o.kind.Resource, o.ns, o.name, w.Q.Ops)
 		}
 	}
+	// a selected object that is TERMINATING (deletionTimestamp, held by a finalizer) is still in the related map; when it
+	// then loses the label it was selected by, it leaves the map - the parent is woken by that update too
+	for _, o := range c15Objects {
+		inner := o.name
+		if c.ClusterParent && o.kind.Namespaced {
+			inner = o.ns + "/" + o.name
+		}
+		if !want[hookKey(o.kind)+"|"+inner] || (!c.ClusterParent && o.ns != pns) {
+			continue
+		}
+		before := w.Sim.Get(o.kind, o.ns, o.name)
+		if kit.Str(before, "metadata", "labels", "rel") == "" {
+			continue
+		}
+		w.Sim.Edit(o.kind, o.ns, o.name, func(x map[string]interface{}) { kit.Deleting(kit.Finalizers(x, "ex.io/hold")) })
+		w.Deliver(o.kind, o.ns, o.name, false)
+		w.Q.Clear()
+		w.Sim.Edit(o.kind, o.ns, o.name, func(x map[string]interface{}) {
+			delete(x["metadata"].(map[string]interface{})["labels"].(map[string]interface{}), "rel")
+		})
+		w.Deliver(o.kind, o.ns, o.name, false)
+		if !w.Q.Has("Add", key) {
+			bad("related-change-does-not-wake:terminating-object-leaves-selection", "%s %s/%s was in the related map; it is being deleted (held by a finalizer) and has just lost the label it was selected by - the parent was not queued (queue ops %v)", o.kind.Resource, o.ns, o.name, w.Q.Ops)
+		}
+		// put it back as it was
+		w.Sim.Edit(o.kind, o.ns, o.name, func(x map[string]interface{}) {
+			md := x["metadata"].(map[string]interface{})
+			delete(md, "deletionTimestamp")
+			delete(md, "deletionGracePeriodSeconds")
+			delete(md, "finalizers")
+			md["labels"] = kit.Copy(kit.M{"l": kit.Get(before, "metadata", "labels")})["l"]
+		})
+		w.Deliver(o.kind, o.ns, o.name, false)
+	}
 	// the same with two more parents of this controller around (never synced, so no answer is remembered for
 	// them) for which the customize hook fails: that is their problem - this parent is woken all the same
 	for _, n := range []string{"a-broken", "z-broken"} {
